@@ -312,7 +312,7 @@ theorem colon_noprefix_arm (cfg : Cfg) (fuel : Nat) (tl rest : List UInt8) (s : 
 
 /-! ### the arms that read a symbol with `symbol_token` -/
 
-theorem ext_facts : ∀ b : UInt8, isSymbolExtended b = true →
+theorem ext_facts_tok : ∀ b : UInt8, isSymbolExtended b = true →
     (b == 35) = false ∧ (b == 45) = false ∧ (b == 43) = false ∧ isDigit b = false ∧
     (b == 34) = false ∧ (b == 40) = false ∧ (b == 91) = false ∧ isAsciiAlpha b = false ∧
     (b == 39) = false ∧ (b == 96) = false ∧ (b == 44) = false ∧ (decide (b > 127)) = false ∧
@@ -327,7 +327,7 @@ theorem extended_arm (cfg : Cfg) (fuel : Nat) (pk : UInt8) (name rest : List UIn
     (he : isSymbolExtended pk = true) (h58 : pk ≠ 58)
     (hq : pk = 63 → cfg.opts.char ≠ .elisp) (hdot : name ≠ [46]) :
     parseToken cfg fuel pk s = .ok (symbolToken cfg.opts name) (s.adv name.length) := by
-  obtain ⟨h35, h45, h43, hd, h34, h40, h91, ha, h39, h96, h44, h127, _⟩ := ext_facts pk he
+  obtain ⟨h35, h45, h43, hd, h34, h40, h91, ha, h39, h96, h44, h127, _⟩ := ext_facts_tok pk he
   have hq' : (pk == 63 && cfg.opts.char == CharSyntax.elisp) = false := by
     by_cases h : pk = 63
     · have := hq h
